@@ -31,22 +31,25 @@ type c20Case struct {
 
 func c20Cases(tier string, seed uint64) []fw.Case {
 	rng := fw.NewRng(seed, "C20")
-	total := 100000
+	total := 1000000
 	points := 200
 	fb, rounds := 64, 4000
 	if tier == "thorough" {
-		total = 1000000
+		total = 5000000
 		points = 5000
 		fb, rounds = 64, 20000
 	}
 	var cs []fw.Case
-	for _, g := range []int{1, 2, 4, 8, 16} {
-		c := c20Case{Kind: "concurrent", G: g, N: total}
-		c.Name = fmt.Sprintf("concurrent/g%d/n%d", g, total)
-		cs = append(cs, fw.MkCase("concurrent", &c))
+	// the id pool rolls over every 4 ms time unit: a run has to span many of them under full contention
+	for _, g := range []int{1, 2, 4, 8, 16, 32} {
+		for r := 0; r < 2; r++ {
+			c := c20Case{Kind: "concurrent", G: g, N: total}
+			c.Name = fmt.Sprintf("concurrent/g%d/n%d/r%d", g, total, r)
+			cs = append(cs, fw.MkCase("concurrent", &c))
+		}
 	}
 	for n := 1; n <= 8; n++ {
-		c := c20Case{Kind: "multi", G: n, N: total / 10}
+		c := c20Case{Kind: "multi", G: n, N: total / 100}
 		c.Name = fmt.Sprintf("multi/%d-generators", n)
 		cs = append(cs, fw.MkCase("multi", &c))
 	}
@@ -308,7 +311,7 @@ func init() {
 			v.Nontrivial = v.Stats["ids"] > 1
 			return v
 		},
-		Rule:        "exact duplicate detection over all ids drawn: one sno generator x {1,2,4,8,16} goroutines x 1e5 (quick) / 1e6 (thorough) draws; 1..8 generators alive at once; snapshot/restore at PRNG points of the draw history (0 draws = immediately, a few, thousands, beyond the 65535-per-time-unit pool) with the restored generator's output merged with the output before the snapshot; 16/64 fallback generators created behind a barrier x rounds; flow and instance ids observed in the traces of 60 instances run 12 at a time in one program; a case is non-trivial when it compared > 1 id; distinct = descriptor hash; 'measured.ids' = ids compared",
+		Rule:        "exact duplicate detection over all ids drawn: one sno generator x {1,2,4,8,16,32} goroutines x 1e6 (quick) / 5e6 (thorough) draws, twice each (a run spans many 4 ms time units of the id pool); 1..8 generators alive at once; snapshot/restore at PRNG points of the draw history (0 draws = immediately, a few, thousands, beyond the 65535-per-time-unit pool) with the restored generator's output merged with the output before the snapshot; 16/64 fallback generators created behind a barrier x rounds; flow and instance ids observed in the traces of 60 instances run 12 at a time in one program; a case is non-trivial when it compared > 1 id; distinct = descriptor hash; 'measured.ids' = ids compared",
 		Assumptions: []string{"wall-clock regressions (sno's drift branch) cannot be injected and are not claimed"},
 		Batch:       2,
 		MaxShards:   6,
